@@ -66,7 +66,7 @@ def _tie_plugin(args):
     rec = _Rec()
     try:
         rng = random.Random("%s/%s/t1" % (seed, p.NAME))
-        for pb in p.tier1_problems(tier, rng):
+        for idx, pb in enumerate(p.tier1_problems(tier, rng)):
             tok = L.pb_tokens(p.encode(pb))
             rep = m.call("M %s %s" % (p.NAME, tok))
             if rep.startswith("OK "):
